@@ -80,7 +80,7 @@ Dual(op) == CASE op = "gt" -> "le" [] op = "le" -> "gt" [] op = "lt" -> "ge" [] 
 \* the left- and right-hand results of the current clause, straight from the query engine
 Root == DocPaths(Docs[di])
 RootEnv == <<[k |-> "root", root |-> Root, lets |-> <<>>]>>
-X0 == [F |-> Prog(Clause(FALSE, FALSE)), dev |-> {}]
+X0 == [F |-> Prog(Clause(FALSE, FALSE)), dev |-> {}, tab |-> <<>>]
 Lhs == Query(X0, Queries[qi], 1, Root, RootEnv)
 RhsRes == LET ri == OpRhs[oi][2] IN ResolveRhs(X0, Rhs[ri], RootEnv)
 
